@@ -220,16 +220,16 @@ static void Array_Concat(var self, var obj) {
   
   struct Array* a = self;
   
-  size_t i = 0;
   size_t olen = len(obj);
   
   a->nitems += olen;
   Array_Reserve_More(a);
+  a->nitems -= olen;
   
   foreach (item in obj) {
-    Array_Alloc(a, a->nitems-olen+i);
-    assign(Array_Item(a, a->nitems-olen+i), item);
-    i++;
+    Array_Alloc(a, a->nitems);
+    assign(Array_Item(a, a->nitems), item);
+    a->nitems++;
   }
   
 }
@@ -328,8 +328,10 @@ static void Array_Push(var self, var obj) {
   struct Array* a = self;
   a->nitems++;
   Array_Reserve_More(a);
-  Array_Alloc(a, a->nitems-1);
-  assign(Array_Item(a, a->nitems-1), obj);
+  a->nitems--;
+  Array_Alloc(a, a->nitems);
+  assign(Array_Item(a, a->nitems), obj);
+  a->nitems++;
 }
 
 static void Array_Push_At(var self, var obj, var key) {
@@ -348,13 +350,21 @@ static void Array_Push_At(var self, var obj, var key) {
   
   a->nitems++;
   Array_Reserve_More(a);
+  a->nitems--;
   
-  memmove((char*)a->data + Array_Step(a) * (i+1),
-          (char*)a->data + Array_Step(a) * (i+0), 
-          Array_Step(a) * ((a->nitems-1) - i));
+  /* Build the element past the end first: if assign fails nothing changed */
+  Array_Alloc(a, a->nitems);
+  assign(Array_Item(a, a->nitems), obj);
+  a->nitems++;
   
-  Array_Alloc(self, i);
-  assign(Array_Item(a, i), obj);
+  if ((size_t)i < a->nitems-1) {
+    char tmp[Array_Step(a)];
+    memcpy(tmp, (char*)a->data + Array_Step(a) * (a->nitems-1), Array_Step(a));
+    memmove((char*)a->data + Array_Step(a) * (i+1),
+            (char*)a->data + Array_Step(a) * (i+0), 
+            Array_Step(a) * ((a->nitems-1) - i));
+    memcpy((char*)a->data + Array_Step(a) * i, tmp, Array_Step(a));
+  }
 }
 
 static void Array_Pop(var self) {
